@@ -45,3 +45,8 @@ func (d *DelayQueue[T]) zzverifSnap() string {
 	}
 	return "q=" + zzverifVals(data[1:])
 }
+
+// the whole heap array of the wrapped priority queue (slot 0 included), its capacity setting and the capacity of the array
+func (c *ConcurrentPriorityQueue[T]) zzverifSnap() string {
+	return fmt.Sprintf("data=%s,cap=%d,scap=%d", zzverifVals(c.pq.VerifData()), c.pq.Cap(), c.pq.VerifSliceCap())
+}
